@@ -31,11 +31,11 @@ ASSUMPTIONS = [
     'each n_body_tensors[key] has shape (n_qubits,)*len(key); keys contain only 0/1',
 ]
 OPEN_STATEMENTS = [
-    'basis_change_sound on Fock space (for unitary U the rotated tensor denotes the operator with rotated ladder operators, '
-    'so spectra are invariant) and composition rotate(R2) after rotate(R1) = rotate(R1 R2): proved is the formal-polynomial '
-    'form for arbitrary R, key order and mixed actions (basis_change_sound_formal: einsum = multilinear substitution); '
-    'multiplicativity of the Fock action, unitarity => CAR preserved, and composition are checked by the Spec oracle '
-    '(exact for signed/complex permutations and dyadic matrices) and numpy eigvalsh at 1e-9',
+    'spectrum invariance under rotate_basis by a unitary and composition rotate(R2) after rotate(R1) = rotate(R1 R2): '
+    'proved is basis_change_sound_fock (the rotated tensor denotes, in Module.End over Fock space, the operator with every '
+    'ladder operator replaced by the rotated one, any R); not proved: that for unitary R the rotated ladder operators are '
+    'unitarily equivalent to the original ones (Bogoliubov transformation implemented on Fock space), and composition; '
+    'both checked by the Spec oracle (exact) and numpy eigvalsh at 1e-9',
     'get_interaction_operator / get_quadratic_hamiltonian / get_diagonal_coulomb_hamiltonian: no theorem (they compose '
     'normal_ordered, property C03, with a scatter loop); soundness and the round trip '
     'get_fermion_operator(convert(A)) == normal_ordered(A) are covered by correspondence + Spec oracle only',
